@@ -185,9 +185,11 @@ def check_souden_wmwf(run, A):
             mats = [t2 for e in g.events if e.term is not None for t2 in walk_terms(e.term) if t2.op in ('binop', 'iop') and t2.args[0] == 'Div' and strip_views(t2.args[1]) is t]
             okm = False
             for m in mats:
-                d = strip_views(m.args[2])
-                if d.op == 'binop' and d.args[0] == 'Add':
-                    okm = okm or (derives(d, 'distortion_weight') and any(x is tr[0] for x in walk_terms(d)))
+                # the denominator may be selected (frequency dependent weight / plain mu) before one shared division
+                for d in unwrap_gamma(m.args[2]):
+                    d = strip_views(d)
+                    if d.op == 'binop' and d.args[0] == 'Add':
+                        okm = okm or (derives(d, 'distortion_weight') and any(x is tr[0] for x in walk_terms(d)))
             run.check(okm, 'R-ROLE', 'get_wmwf_vector: filter = Phi_nn^-1 Phi_xx / (mu + lambda)', fn.loc(), '', 'denominator is not distortion_weight + trace', construct=f'R-ROLE::{q}::mu-plus-lambda')
         # reference channel defaults to the optimal one
         calls = [e for e in g.events if e.kind == 'call' and call_parts(e.term)[0] == B + 'get_optimal_reference_channel']
